@@ -107,7 +107,10 @@ func JSONLexVariant(r *core.Rand, doc []byte) []byte {
 						}
 					}
 				case "DateTime":
-					if tm, err := time.Parse(time.RFC3339, val); err == nil {
+					if r.P(1, 10) {
+						// in range as written, outside years 0..9999 as an instant (or the other way round)
+						t["value"] = edgeDates[r.Intn(len(edgeDates))]
+					} else if tm, err := time.Parse(time.RFC3339, val); err == nil {
 						switch r.Intn(4) {
 						case 0:
 							if tm.Unix() >= 0 {
@@ -140,6 +143,10 @@ func JSONLexVariant(r *core.Rand, doc []byte) []byte {
 	}
 	return out
 }
+
+// date-times whose local notation and UTC instant lie on different sides of the year 0 / year 9999 boundaries
+var edgeDates = []string{"9999-12-31T23:59:59-12:00", "0000-01-01T00:00:00+14:00", "9999-12-31T20:00:00-05:00", "0000-01-01T03:00:00+05:30",
+	"9999-12-31T23:59:59+14:00", "0000-01-01T00:00:00-12:00", "0001-01-01T00:00:00+00:01", "9999-12-31T23:59:59-00:01"}
 
 var xmlAttrRe = regexp.MustCompile(`<([A-Za-z_0-9]+)((?: tag="[^"]*")?) type="([A-Za-z]+)" value="([^"]*)"/>`)
 
@@ -192,7 +199,9 @@ func XMLLexVariant(r *core.Rand, doc []byte) []byte {
 				nv = []string{"FALSE", "False", "0", "f", "F"}[r.Intn(5)]
 			}
 		case "DateTime":
-			if tm, err := time.Parse(time.RFC3339, val); err == nil {
+			if r.P(1, 10) {
+				nv = edgeDates[r.Intn(len(edgeDates))]
+			} else if tm, err := time.Parse(time.RFC3339, val); err == nil {
 				switch r.Intn(3) {
 				case 0:
 					nv = tm.In(time.FixedZone("", 5*3600+1800)).Format(time.RFC3339)
@@ -207,6 +216,13 @@ func XMLLexVariant(r *core.Rand, doc []byte) []byte {
 			if ty == "BigInteger" && r.Bool() && len(val) > 0 && val[0] < '8' {
 				nv = "00" + val
 			}
+		}
+		// attribute order and spacing are free in XML
+		switch r.Intn(4) {
+		case 0:
+			return []byte(fmt.Sprintf(`<%s value="%s" type="%s"%s/>`, name, nv, ty, tagAttr))
+		case 1:
+			return []byte(fmt.Sprintf(`<%s value="%s"%s type="%s" />`, name, nv, tagAttr, ty))
 		}
 		return []byte(fmt.Sprintf(`<%s%s type="%s" value="%s"/>`, name, tagAttr, ty, nv))
 	})
